@@ -407,7 +407,12 @@ def run(tier, seed):
     evs = events()
     all_depth = 3 if tier == "quick" else 4
     bfs_depth = 6 if tier == "quick" else 12
-    tasks = [("all", i, all_depth) for i in range(len(evs))] + [("bfs", i, bfs_depth) for i in range(len(evs)) if evs[i][0] == "add" and evs[i][1] not in TWINS]
+    # thorough: sequences of 4 events start with an add (every other first event meets the empty set, is refused or changes nothing
+    # there, and is followed to 3 events: what such a call might leave behind shows within the next two events)
+    def dep(i):
+        return all_depth if (tier == "quick" or evs[i][0] == "add") else all_depth - 1
+
+    tasks = [("all", i, dep(i)) for i in range(len(evs))] + [("bfs", i, bfs_depth) for i in range(len(evs)) if evs[i][0] == "add" and evs[i][1] not in TWINS]
     # the same events on a set loaded from a parse result that a second set shares
     tasks += [("loaded", i, all_depth - 1) for i in range(len(evs))]
     res = pool.run_tasks("checks.c12:task", tasks)
@@ -418,7 +423,7 @@ def run(tier, seed):
     closed = all(r.get("closed", True) for r in res)
     cov = dict(states=sum(r["states"] for r in res), transitions=n, traces_validated_against_impl=n, evaluations=n,
                distinct_nontrivial=sum(r["states"] for r in res),
-               rule="E1 on the real FiltersSet, state = history replayed on a fresh object: (1) every sequence of <= %d of the %d events (add/update/replace "
+               rule="E1 on the real FiltersSet, state = history replayed on a fresh object: (1) every sequence of <= %d (thorough: 4 when the first event is an add, else 3) of the %d events (add/update/replace "
                     "with fresh or getfilter content/remove/enable/disable/move over names a,b,c as str and bytes, two definitions) without deduplication; "
                     "(2) BFS with dedup on (model state, implementation names/flags/wrapper depths/content) to depth %d; after every event: return value / "
                     "FilterAlreadyExists, names, order, flags, is_filter_disabled, filter_exists, wrapper depth, rendering per filter (reference parse), "
